@@ -611,6 +611,13 @@ func mustReject(b base, path string, val any, orig any, enc string) bool {
 		}
 		_, ok := isNum()
 		return !ok // wrong element type
+	case strings.Contains(path, "points") && (strings.HasSuffix(path, ".a") || strings.HasSuffix(path, ".n.x")):
+		// an integer-indexed property given as an unsigned 64-bit number beyond int64 (only the typed wire
+		// format can say that): it does not fit the index's value type and must be refused, not wrapped
+		if r, ok := val.(raw); ok && r.s == "9223372036854775808" && enc == "msgpack" {
+			return true
+		}
+		return false
 	case strings.HasSuffix(path, ".operator"):
 		return true // every replacement is an unknown operator
 	case path == ".limit":
